@@ -200,8 +200,8 @@ fn gen_pair(src: &mut Src, st: &mut Stats) -> Option<((J, String), (J, String), 
                     Some(((J::Num(numeral_value(&a)), a), (J::Num(numeral_value(&b2)), b2), "number-neighbour"))
                 }
                 _ => {
-                    let a = gen_numeral(src, &o);
-                    let b2 = gen_numeral(src, &o);
+                    let a = if src.chance(50) { src.pick(&["0", "0.0", "-0.0", "0e0", "5e-324", "1e-310"]).to_string() } else { gen_numeral(src, &o) };
+                    let b2 = if src.chance(50) { src.pick(&["1e-17", "-1e-17", "3e-200", "1e-300", "2.5e-16", "1e-15", "5e-324", "0"]).to_string() } else { gen_numeral(src, &o) };
                     Some(((J::Num(numeral_value(&a)), a), (J::Num(numeral_value(&b2)), b2), "number-small"))
                 }
             }
@@ -432,6 +432,66 @@ fn near_ties(src: &mut Src, st: &mut Stats, _env: &Env) -> CaseResult {
     Ok(())
 }
 
+/// Deeply nested and wide values: equality must stay structural at every
+/// depth (up to the JSON parser's 128 levels) and width.
+fn deep_wide(src: &mut Src, st: &mut Stats, _env: &Env) -> CaseResult {
+    let leaf_l = match src.below(4) {
+        0 => J::int(src.range(-3, 3)),
+        1 => J::s("x"),
+        2 => J::Arr(vec![]),
+        _ => J::Null,
+    };
+    let same = src.flip();
+    let leaf_r = if same { leaf_l.clone() } else { crate::gen_doc::near_value(&leaf_l, src) };
+    let (mut l, mut r) = (leaf_l, leaf_r);
+    if src.flip() {
+        // depth tower
+        let depth = match src.below(3) {
+            0 => 1 + src.below(12),
+            1 => 20 + src.below(50),
+            _ => 100 + src.below(25),
+        };
+        for i in 0..depth {
+            if (i + src.below(2)) % 2 == 0 {
+                l = J::Arr(vec![l]);
+                r = J::Arr(vec![r]);
+            } else {
+                let mut ml = std::collections::BTreeMap::new();
+                ml.insert("k".to_string(), l);
+                let mut mr = std::collections::BTreeMap::new();
+                mr.insert("k".to_string(), r);
+                l = J::Obj(ml);
+                r = J::Obj(mr);
+            }
+        }
+        st.class("deep");
+    } else {
+        // wide container with the difference at a random position
+        let n = src.size(400).max(1);
+        let pos = src.below(n);
+        let as_obj = src.flip();
+        let mk = |x: J, n: usize, pos: usize, as_obj: bool| -> J {
+            if as_obj {
+                J::Obj((0..n).map(|i| (format!("k{:04}", i), if i == pos { x.clone() } else { J::int(i as i64) })).collect())
+            } else {
+                J::Arr((0..n).map(|i| if i == pos { x.clone() } else { J::int(i as i64) }).collect())
+            }
+        };
+        l = mk(l, n, pos, as_obj);
+        r = mk(r, n, pos, as_obj);
+        st.class("wide");
+    }
+    let (lt, rt) = (l.to_json(), r.to_json());
+    if has_near_tie(&l, &r) {
+        return laws_only("deep-wide", &lt, &rt, false, st);
+    }
+    check_pair("deep-wide", &l, &lt, &r, &rt, st)?;
+    if st.nontrivial(&format!("{}\u{0}{}", lt, rt)) {
+        st.sample(|| json!({"l_bytes": lt.len(), "r_bytes": rt.len(), "equal": l.deep_eq(&r), "l_prefix": lt.chars().take(60).collect::<String>()}));
+    }
+    Ok(())
+}
+
 fn case_pair(lt: &str, rt: &str, st: &mut Stats) -> CaseResult {
     let l = J::Num(numeral_value(lt));
     let r = J::Num(numeral_value(rt));
@@ -476,6 +536,7 @@ pub fn property() -> Property {
         minimise: None,
         subs: vec![
             Sub::Custom(CustomSub { name: "cases", run: fixed_cases, replay: replay_case }),
+            Sub::Bytes(BytesSub { name: "deep-wide", f: deep_wide, max_len: 64, quick: Budget { threads: 4, cases: 1500 }, thorough: Budget { threads: 16, cases: 60_000 }, keep_unreproducible: false }),
             Sub::Bytes(BytesSub { name: "near-ties", f: near_ties, max_len: 48, quick: Budget { threads: 4, cases: 4000 }, thorough: Budget { threads: 16, cases: 200_000 }, keep_unreproducible: false }),
             Sub::Bytes(BytesSub { name: "pairs", f: pairs, max_len: 600, quick: Budget { threads: 8, cases: 6000 }, thorough: Budget { threads: 16, cases: 300_000 }, keep_unreproducible: false }),
         ],
